@@ -86,6 +86,10 @@ func runC02(c *Ctx) {
 	// loop must then really stop: it tests the closed state before every dispatch, whatever the configuration
 	c.R.Rule("R-no-dispatch-after-close", "E2+E4+call graph", "after a dispatch that may close the connection the command loop passes a test of state written by Conn.Close before it dispatches another command", 2)
 	ruleNoDispatchAfterClose(c)
+	if f := c.A.Func("(*Conn).Close"); f != nil {
+		_, sm := c.Std()
+		c.R.Ob("(*Conn).Close/marks the connection closed on every path", c.P.Pos(f.Pos()), sm.Must(f)["st:Conn.closed=true"], "Conn.Close can return without setting closed (an error from Logout or from closing the socket returned early): after an aborted DATA the loop goes on and executes the rest of the message as commands")
+	}
 	ruleSocketCloseOwner(c)  // ... and that state is set: the socket is closed through Conn.Close only
 	ruleLineLimitCounting(c) // the limiter's refusal must stay in force (count past the limit): a drain that resumes after a refused segment reads a stream with a hole in it
 }
